@@ -784,18 +784,7 @@ Section MacroP.
       apply merge_loop_err in E. tauto.
     - intros [d [Hin [Hu Hd]]].
       destruct (merge_loop decls user plugin) as [o'|e'] eqn:E; cbn [bind]; [|eauto].
-      exfalso.
-      assert (lookup (o_name d) o' = None) as N.
-      { destruct (last_decl_declared (o_name d) decls) as [d' Hd'].
-        { apply in_map. assumption. }
-        pose proof (merge_loop_value _ _ _ (o_name d) E) as L. rewrite Hd' in L.
-        (* the last declaration of this name was processed after d, so the loop got past d *)
-        clear L Hd'. revert plugin E. induction decls as [|d0 r IH]; intros o0 E; [destruct Hin|].
-        cbn [merge_loop] in E. destruct Hin as [->|Hin].
-        - rewrite Hu, Hd in E. discriminate.
-        - destruct (lookup (o_name d0) user); [eapply IH; eassumption|].
-          destruct (o_default d0); [eapply IH; eassumption|discriminate]. }
-      clear N. revert plugin E. induction decls as [|d0 r IH]; intros o0 E; [destruct Hin|].
+      exfalso. revert plugin E. induction decls as [|d0 r IH]; intros o0 E; [destruct Hin|].
       cbn [merge_loop] in E. destruct Hin as [->|Hin].
       + rewrite Hu, Hd in E. discriminate.
       + destruct (lookup (o_name d0) user); [eapply IH; eassumption|].
